@@ -92,6 +92,9 @@ class World:
         self.withstack = []
         self.dead = []  # deactivated entries (must stay silent)
         self.base_current = HandlerCollection.current.get()
+        from ptera import Overlay
+
+        self.shared_overlay = Overlay()
 
     # -- activation ---------------------------------------------------------
     def make_probe(self, si):
@@ -136,17 +139,43 @@ class World:
         else:
             h = Immediate(selobj, trigger=lambda d, out=out: out.append(("imm", {k: c.value for k, c in d.items()})))
         ol = BaseOverlay(h)
+        entry = {"si": si, "kind": "total" if kind == "total" else "imm", "sels": [sels[0]], "texts": [text], "out": out, "expected": [], "handlers": [h], "selectors": [selobj], "overlay": True}
+        self.noverlays = getattr(self, "noverlays", 0) + 1
+        HC = self.HC
 
-        class Block:
-            def enter(b):
-                b.tooled = autotool(selobj)
-                ol.__enter__()
+        if kind != "total" and self.noverlays % 2 == 0:
+            # a rule derived from a long-lived Overlay instance (ov.tapping forks ov): when the block
+            # is left nothing of it may stay in ov, which is entered again around later calls
+            cm = self.shared_overlay.tapping(selobj)
 
-            def exit(b, *exc):
-                ol.__exit__(*exc)
-                autotool(selobj, undo=True)
+            class Block:
+                def enter(b):
+                    autotool(selobj)
+                    cur = HC.current.get()
+                    before = {id(a) for _, a in (cur.handler_pairs if cur else [])}
+                    entry["tap"] = cm.__enter__()
+                    cur = HC.current.get()
+                    entry["handlers"][:] = [a for _, a in cur.handler_pairs if id(a) not in before]
 
-        return {"si": si, "kind": "total" if kind == "total" else "imm", "sels": [sels[0]], "texts": [text], "obj": Block(), "out": out, "expected": [], "handlers": [h], "selectors": [selobj], "overlay": True}
+                def exit(b, *exc):
+                    try:
+                        cm.__exit__(*exc)
+                    finally:
+                        autotool(selobj, undo=True)
+
+        else:
+
+            class Block:
+                def enter(b):
+                    b.tooled = autotool(selobj)
+                    ol.__enter__()
+
+                def exit(b, *exc):
+                    ol.__exit__(*exc)
+                    autotool(selobj, undo=True)
+
+        entry["obj"] = Block()
+        return entry
 
     # -- shadow -------------------------------------------------------------
     def shadow(self):
@@ -205,6 +234,8 @@ class World:
         if gp != exp_gp:
             problems.append(f"global_probes has {len(gp)} entries, expected {len(exp_gp)}")
         for e in self.active + self.dead:
+            if "tap" in e:
+                e["out"][:] = [("imm", dict(d)) for d in e["tap"]]
             if canon(e["out"]) != canon(e["expected"]):
                 problems.append({"probe": e["texts"], "kind": e["kind"], "active": e in self.active, "expected": canon(e["expected"])[-6:], "got": canon(e["out"])[-6:], "n_expected": len(e["expected"]), "n_got": len(e["out"])})
         return [{"after": where, "problem": p} for p in problems]
@@ -370,7 +401,12 @@ def run_history(ns, specs, ops, res, case, known):
             elif kind == "call":
                 if w.active:
                     ncalls_active += 1
-                w.call(op[1])
+                if step % 3 == 0:
+                    # the long-lived (empty) overlay is entered around the call
+                    with w.shared_overlay:
+                        w.call(op[1])
+                else:
+                    w.call(op[1])
         except Exception as ex:
             problems.append({"after": f"step {step} {op}", "problem": "exception: " + common.fmt_exc(ex)})
             break
